@@ -84,12 +84,16 @@ func main() {
 	goBin := flag.String("go", "go1.26.8", "go binary")
 	net := flag.Bool("net", true, "apply network import substitutions (needs zzverif/simgrpc)")
 	overlay := flag.String("overlay", "", "directory tree of extra files copied into the root after the rewrite (exports of the re-packaged main packages)")
+	mains := flag.Bool("mains", true, "re-package the main packages")
 	flag.Parse()
 	if *root == "" {
 		fatal("need -root")
 	}
 	if !*net {
 		netPkgs = map[string]bool{}
+	}
+	if !*mains {
+		mainPkgs = map[string]string{}
 	}
 	pkgs := goList(*root, *goBin)
 	exports := map[string]string{}
